@@ -392,6 +392,7 @@ func (x *Exec) step(fr *Frame, st *State, in ssa.Instruction) {
 		switch {
 		case isPlainStruct(t):
 			st.writeStruct(t, id, zeroValue(t))
+			x.initOpaque(st, t, id)
 		case isOpaqueStruct(t):
 			// zero value of sync.Mutex / sync.Once: unlocked / not done
 			st.setArr("G|held", Store(heldArr(st), id, False))
@@ -545,6 +546,40 @@ func (x *Exec) step(fr *Frame, st *State, in ssa.Instruction) {
 		fr.regs[n] = x.val(fr, st, n.Edges[idx])
 	default:
 		x.fail("unsupported instruction %T: %s", in, in)
+	}
+}
+
+// initOpaque gives the by-value sync.Mutex / sync.Once / sync.Map fields of a new struct their zero meaning.
+func (x *Exec) initOpaque(st *State, t types.Type, addr *Term) {
+	owner := namedOf(t)
+	s := structOf(t)
+	if owner == nil || s == nil {
+		return
+	}
+	for i := 0; i < s.NumFields(); i++ {
+		f := s.Field(i)
+		ft := types.Unalias(f.Type())
+		a := embAddr(owner, i, addr)
+		switch {
+		case isNamed(ft, "sync", "Mutex"), isNamed(ft, "sync", "RWMutex"):
+			st.setArr("G|held", Store(heldArr(st), a, False))
+		case isNamed(ft, "sync", "Once"):
+			st.setArr("G|oncedone", Store(st.arr("G|oncedone", ArrayS(IntS, BoolS)), a, False))
+		case isNamed(ft, "sync", "Map"):
+			if owner.Obj().Pkg() == nil {
+				continue
+			}
+			spec := x.eng.cs.SyncMaps[owner.Obj().Pkg().Path()+"."+owner.Obj().Name()+"."+f.Name()]
+			if spec == nil {
+				continue
+			}
+			mv := x.eng.syncMapV(spec, a)
+			ks, _ := scalarSort(mv.KeyT)
+			dn := mv.Name + "|dom"
+			st.setArr(dn, Store(st.arr(dn, ArrayS(IntS, ArrayS(ks, BoolS))), a, ConstArray(ArrayS(ks, BoolS), False)))
+		case isPlainStruct(ft):
+			x.initOpaque(st, ft, a)
+		}
 	}
 }
 
